@@ -4,7 +4,7 @@
    hence valid for all values).  Real-number part: the accessors the conversions are made of preserve the vector. *)
 From Coq Require Import Reals List Bool.
 From VP Require Import Lib RLib Spec Compute Tables ObjModel ObjNames ObjApi ObjChecks C04_conv.
-From VP Require ObjModel ObjNames NbModel NbApi NbChecks.
+From VP Require ObjModel ObjNames NbModel NbApi NbChecks NpApi NpChecks.
 Import ObjNames List.ListNotations.
 
 (* to_<system>(): 40 methods x 40 sources (20 systems x 2 flavors) x keyword choices.
@@ -34,6 +34,14 @@ Qed.
 Theorem C04_compiled_conversions_are_the_interpreted_ones :
   VP.NbChecks.agree_on [N_to_xy; N_to_xyz; N_to_xyzt; N_to_xyztau; N_to_xytheta; N_to_xythetat; N_to_xythetatau; N_to_xyeta; N_to_xyetat; N_to_xyetatau; N_to_rhophi; N_to_rhophiz; N_to_rhophizt; N_to_rhophiztau; N_to_rhophitheta; N_to_rhophithetat; N_to_rhophithetatau; N_to_rhophieta; N_to_rhophietat; N_to_rhophietatau; N_to_Vector2D; N_to_Vector3D; N_to_Vector4D]%list = true /\
   Nat.ltb 100 (VP.NbChecks.count_on [N_to_xy; N_to_xyz; N_to_xyzt; N_to_xyztau; N_to_xytheta; N_to_xythetat; N_to_xythetatau; N_to_xyeta; N_to_xyetat; N_to_xyetatau; N_to_rhophi; N_to_rhophiz; N_to_rhophizt; N_to_rhophiztau; N_to_rhophitheta; N_to_rhophithetat; N_to_rhophithetatau; N_to_rhophieta; N_to_rhophietat; N_to_rhophietatau; N_to_Vector2D; N_to_Vector3D; N_to_Vector4D]%list) = true.
+Proof. vm_cast_no_check (conj (eq_refl true) (eq_refl true)). Qed.
+
+
+(* NumPy arrays (the real backend executed symbolically, T6): every conversion and dimension change, with every keyword choice, from
+   every system and flavor gives elementwise the object backend's outcome — so everything proved above about stored variables, imputed
+   keywords and zeros holds for NumPy arrays too *)
+Theorem C04_numpy_conversions_are_the_object_conversions :
+  VP.NpChecks.np_agree_fam VP.NbModel.FConv = true /\ Nat.ltb 5000 (VP.NpChecks.np_count_fam VP.NbModel.FConv) = true.
 Proof. vm_cast_no_check (conj (eq_refl true) (eq_refl true)). Qed.
 
 Example C04_nonvacuous : (5000 <? length conv_tab)%nat = true /\
